@@ -90,7 +90,7 @@ Qed.
 (* ======================================================================================================
    Attribute / API layer (Model/ConcatAttrs.v): add hole, add data, set values / surveys, rename, remove data /
    group / hole (through the workspace or the parent), explicit group, re-open.                              *)
-From GV Require Import Model.ConcatAttrs Proofs.ConcatAttrsProofs.
+From GV Require Import Model.ConcatAttrs Proofs.ConcatAttrsProofs Proofs.ConcatWF.
 
 (* after ANY sequence of API operations every state that is reached has exactly tiled tables
    (each operation acts on the tables only through update_array_attribute, so C04_tiled_preserved applies) *)
@@ -125,15 +125,11 @@ Proof.
 Qed.
 Print Assumptions C04_no_stale_entry_refuted.
 
-(* PARTIAL: in histories without hole removal every row belongs to a live hole.
-   Missing for the full property: histories with both a rename and a later removal of that hole (the witness above);
-   a proof under the exact side condition "no rename" needs the invariant row <-> Property key, which is checked on every
-   run by the correspondence and the oracle only. *)
+(* PARTIAL, exact side condition: in histories WITHOUT RENAME every index row belongs to a live hole (hole removal included,
+   now that it clears the hole's rows).  The witness above shows that one rename is enough to break it. *)
 Theorem C04_rows_live_partial : forall ops s,
-  forallb (fun op => negb (is_remove_hole op)) ops = true -> reaches ops s -> rows_live s.
-Proof.
-  intros ops s Hq [Hlen Hlast]. exact (run_rows_live ops init s Hq rows_live_init Hlen Hlast).
-Qed.
+  forallb (fun op => negb (is_rename op)) ops = true -> reaches ops s -> rows_live s.
+Proof. intros ops s Hq R. exact (wf_rows_live s (reaches_WF ops s Hq R)). Qed.
 Print Assumptions C04_rows_live_partial.
 
 (* at most one attribute record per identifier, in every state reached by any history (attributes_keys has no duplicate) *)
@@ -191,4 +187,116 @@ Proof.
   exists s. split; [exact R|]. split; [apply (C04_rows_live_partial ops s); [reflexivity | exact R]|].
   vm_compute in E. inversion E; subst; clear E R. split; [reflexivity|]. split; [reflexivity|].
   eexists. split; [vm_compute; reflexivity|]. split; reflexivity.
+Qed.
+
+
+(* ======================================================================================================
+   API-level read-your-write, isolation, table view and "exactly one record" (Proofs/ConcatWF.v).
+   api_read s h d  = Workspace.fetch_values(data d of hole h)  (looked up under the data set's current name)
+   api_surveys s h = the hole's survey depths
+   keyedR (recs s) h lab d = hole h's record holds "Property:<lab>" -> d  (d is a data set of hole h)           *)
+
+(* read-your-write, update: in EVERY reachable state (renames included) a successful `data.values = vals` reads back the values
+   written, padded with no-data to the depth length *)
+Theorem C04_api_read_your_write_set : forall ops s h d vals s',
+  reaches ops s -> api_step s (SetValues h d vals) = AOk s' ->
+  exists k, api_read s' h d = Some (pad vals k) /\ pad vals k = vals ++ repeat None (k - length vals).
+Proof.
+  intros ops s h d vals s' R H. destruct (ryw_set_values s h d vals s' (reaches_tiled ops s R) H) as (k & Hk).
+  exists k. split; [exact Hk | apply pad_spec].
+Qed.
+Print Assumptions C04_api_read_your_write_set.
+
+(* read-your-write, add: PARTIAL (no rename in the history): a successful add_data reads back the values written (padded) *)
+Theorem C04_api_read_your_write_add_partial : forall ops s h pgname name pgid depid did depth vals s',
+  forallb (fun op => negb (is_rename op)) ops = true -> reaches ops s ->
+  api_step s (AddData h pgname name pgid depid did depth vals) = AOk s' ->
+  exists k, api_read s' h did = Some (pad vals k) /\ pad vals k = vals ++ repeat None (k - length vals).
+Proof.
+  intros ops s h pgname name pgid depid did depth vals s' Hq R H.
+  destruct (ryw_add_data s h pgname name pgid depid did depth vals s' (reaches_WF ops s Hq R) H) as (k & Hk).
+  exists k. split; [exact Hk | apply pad_spec].
+Qed.
+Print Assumptions C04_api_read_your_write_add_partial.
+
+(* isolation between holes: PARTIAL (no rename in the history, the operation is not a rename): ANY operation on hole h - add hole,
+   add / update / remove data, groups, surveys, removing the hole itself with all its cascades - leaves what every data set of every
+   other hole reads, and the other holes' surveys, unchanged *)
+Theorem C04_api_isolation_partial : forall ops s op h s' h' lab d,
+  forallb (fun op => negb (is_rename op)) ops = true -> reaches ops s ->
+  is_rename op = false -> op_hole op = Some h -> outcome (api_step s op) = Some s' ->
+  h' <> h -> keyedR (recs s) h' lab d ->
+  api_read s' h' d = api_read s h' d /\ api_surveys s' h' = api_surveys s h'.
+Proof.
+  intros ops s op h s' h' lab d Hq R Hr Hh Ho Hne Hk. pose proof (reaches_WF ops s Hq R) as W.
+  exact (touch_isolation s h s' h' lab d W (step_touch s op h s' W Hr Hh Ho) Hne Hk).
+Qed.
+Print Assumptions C04_api_isolation_partial.
+
+(* isolation inside a hole: updating one data set leaves the hole's other data sets unchanged *)
+Theorem C04_api_isolation_same_hole_partial : forall ops s h d vals s' lab' d',
+  forallb (fun op => negb (is_rename op)) ops = true -> reaches ops s ->
+  api_step s (SetValues h d vals) = AOk s' -> d' <> d -> keyedR (recs s) h lab' d' ->
+  api_read s' h d' = api_read s h d'.
+Proof.
+  intros ops s h d vals s' lab' d' Hq R H Hne Hk. exact (set_values_same_hole s h d vals s' lab' d' (reaches_WF ops s Hq R) H Hne Hk).
+Qed.
+Print Assumptions C04_api_isolation_same_hole_partial.
+
+(* group-wide table view: PARTIAL (no rename): the table of a data name lists, in Start-index order, rows of LIVE holes only,
+   each with exactly the values the API reads for that hole's data set, and their concatenation is the whole array *)
+Theorem C04_api_table_view_partial : forall ops s lab t,
+  forallb (fun op => negb (is_rename op)) ops = true -> reaches ops s ->
+  10 <= lab -> sget lab (st s) = Some t ->
+  concat (map (fun p : nat * list val => snd p) (table_view t)) = data t
+  /\ forall r, In r (rows t) ->
+       In (oid r) (objids s) /\ api_read s (oid r) (did r) = Some (slice (data t) (start r) (size r)).
+Proof. intros ops s lab t Hq R Hl Hg. exact (wf_table_view s lab t (reaches_WF ops s Hq R) Hl Hg). Qed.
+Print Assumptions C04_api_table_view_partial.
+
+(* exactly one attribute record per live hole, data set and property group, and none for anything else: PARTIAL (no rename).
+   live hole = listed in `Concatenated object IDs`; live data set = named by a Property key of a live hole; live group = listed in
+   the Property Group IDs row of a live hole *)
+Theorem C04_records_exact_partial : forall ops s,
+  forallb (fun op => negb (is_rename op)) ops = true -> reaches ops s ->
+  NoDup (map a_id (recs s))
+  /\ forall id, In id (map a_id (recs s)) <->
+       In id (objids s)
+       \/ (exists h lab, In h (objids s) /\ keyedR (recs s) h lab id)
+       \/ (exists h, In h (objids s) /\ In id (pgs_of s h)).
+Proof. intros ops s Hq R. exact (wf_records_exact s (reaches_WF ops s Hq R)). Qed.
+Print Assumptions C04_records_exact_partial.
+
+(* non-vacuity of the API-level theorems: three holes sharing data names, padding, an update, removals with cascade and a hole removal;
+   every hypothesis is met and the conclusions are about non-trivial values *)
+Definition nv_ops : list aop :=
+  [AddHole 1 (Some [Some 0; Some 1]%Z); AddHole 2 (Some [Some 0]%Z); AddHole 3 None;
+   AddData 1 0 100 4 5 6 (Some [Some 1000; Some 1001; Some 1002]%Z) [Some 7; None]%Z;
+   AddData 2 0 100 7 8 9 (Some [Some 1000]%Z) [Some 3]%Z;
+   AddData 1 0 101 10 11 12 None [Some 4]%Z;
+   AddData 3 1 100 13 14 15 (Some [Some 2000; Some 2001]%Z) [Some 5; Some 6]%Z;
+   RemoveData 2 9 true; Reopen; RemoveHole 3 false].
+
+Example C04_api_level_nonvacuous :
+  forallb (fun op => negb (is_rename op)) nv_ops = true
+  /\ exists s, reaches nv_ops s /\ objids s = [1; 2]
+     /\ keyedR (recs s) 1 100 6 /\ keyedR (recs s) 1 101 12
+     /\ api_read s 1 6 = Some [Some 7; None; None]%Z /\ api_read s 1 12 = Some [Some 4; None; None]%Z
+     /\ sget 100 (st s) = Some (mktab [mkrow 0 3 1 6] [Some 7; None; None]%Z)
+     /\ map a_id (recs s) = [1; 2; 4; 5; 6; 12]
+     /\ (exists s', api_step s (SetValues 1 6 [Some 9]%Z) = AOk s' /\ api_read s' 1 6 = Some [Some 9; None; None]%Z
+                    /\ api_read s' 1 12 = api_read s 1 12)
+     /\ (exists s', api_step s (AddData 2 0 100 20 21 22 (Some [Some 1000; Some 1001]%Z) [Some 8]%Z) = AOk s'
+                    /\ api_read s' 2 22 = Some [Some 8; None]%Z /\ api_read s' 1 6 = api_read s 1 6
+                    /\ sget 100 (st s') = Some (mktab [mkrow 0 3 1 6; mkrow 3 2 2 22] [Some 7; None; None; Some 8; None]%Z)).
+Proof.
+  split; [reflexivity|].
+  destruct (last_state init (arun init nv_ops)) as [s|] eqn:E; [|vm_compute in E; discriminate].
+  assert (R : reaches nv_ops s) by (split; [vm_compute; reflexivity | exact E]).
+  exists s. split; [exact R|]. vm_compute in E. inversion E; subst; clear E R.
+  split; [reflexivity|].
+  split; [eexists; split; [reflexivity | split; [reflexivity | right; left; reflexivity]]|].
+  split; [eexists; split; [reflexivity | split; [reflexivity | right; right; left; reflexivity]]|].
+  split; [reflexivity|]. split; [reflexivity|]. split; [reflexivity|]. split; [reflexivity|].
+  split; eexists; (split; [vm_compute; reflexivity|]); repeat split; reflexivity.
 Qed.
